@@ -52,6 +52,10 @@ func chansMergeScenario(r *R) {
 
 func chansMergeRun[T any](r *R, enc func(int) T, dec func(T) int) {
 	arity := []int{2, 0, 1, 3, 4, 6}[r.Choose(6, "arity")]
+	if r.Choose(400, "arity-huge") == 399 {
+		chansMergeHuge[T](r)
+		return
+	}
 	switch {
 	case arity <= 3:
 		r.Probe(fmt.Sprintf("chans-arity-%d", arity))
@@ -158,6 +162,38 @@ func chansMergeRun[T any](r *R, enc func(int) T, dec func(T) int) {
 	}
 	if len(out) > 0 {
 		r.Violate("C12", "chans-merge/extra-values", "%d extra values were sent to out", len(out))
+	}
+}
+
+// chansMergeHuge: "any number of inputs" taken literally - more inputs than one reflect.Select call
+// accepts. Every input is already closed, so Merge has nothing to move and must simply return.
+func chansMergeHuge[T any](r *R) {
+	const arity = 65537
+	r.Probe("chans-arity-over-65536")
+	ins := make([]<-chan T, arity)
+	for i := range ins {
+		c := make(chan T)
+		close(c)
+		ins[i] = c
+	}
+	out := make(chan T, 1)
+	returned := false
+	sim.GoNamed("merger", func() {
+		sim.Self().Label = "chans.Merge"
+		defer func() {
+			if p := recover(); p != nil {
+				if p == sim.Killed {
+					panic(p)
+				}
+				r.Violate("C12", "chans-merge/panic/arity-over-65536", "chans.Merge with %d (closed) inputs panicked: %v", arity, p)
+			}
+		}()
+		chans.Merge(out, ins...)
+		returned = true
+	})
+	sim.WaitStuck("merge-huge")
+	if !r.Failed() && !returned {
+		r.Violate("C12", "chans-merge/never-returns/arity-over-65536", "chans.Merge with %d closed inputs has not returned: %v", arity, sim.TaskStates())
 	}
 }
 
